@@ -314,7 +314,7 @@ def site(mi: ModuleInfo, node: ast.AST, func: str = "") -> str:
 # (x.size() / x.shape, torch.round(x) / x.round(), keyword / positional arguments of package functions, 1 << n / 2 ** n ...).
 # ----------------------------------------------------------------------------------------------
 _METHOD_FORM = {"round", "clamp", "clip", "abs", "amax", "amin", "squeeze", "reshape", "permute", "t", "transpose", "flatten", "neg", "negative", "contiguous", "unsqueeze",
-                "div", "true_divide", "mul", "multiply", "sub", "subtract", "add", "clamp_min", "clamp_max", "floor", "ceil", "trunc", "nan_to_num", "isnan"}
+                "div", "true_divide", "mul", "multiply", "sub", "subtract", "add", "clamp_min", "clamp_max", "floor", "ceil", "trunc", "nan_to_num", "isnan", "all", "any", "eq", "ne", "sum", "mean", "to"}
 _SIGNATURES: Dict[str, ast.FunctionDef] = {}  # unique package function / constructor names -> def (filled by set_active_repo)
 
 
@@ -359,11 +359,21 @@ class _Canon(ast.NodeTransformer):
                     return ast.BinOp(left=node.args[0], op=arith[f.attr](), right=node.args[1])
                 if not (isinstance(f.value, ast.Name) and f.value.id in ("torch", "operator", "np", "math")) and len(node.args) == 1:
                     return ast.BinOp(left=f.value, op=arith[f.attr](), right=node.args[0])
+            cmpf = {"eq": ast.Eq, "ne": ast.NotEq, "lt": ast.Lt, "le": ast.LtE, "gt": ast.Gt, "ge": ast.GtE}
+            if f.attr in cmpf and not node.keywords and not any(isinstance(a, ast.Starred) for a in node.args):
+                if isinstance(f.value, ast.Name) and f.value.id == "torch" and len(node.args) == 2:
+                    return ast.Compare(left=node.args[0], ops=[cmpf[f.attr]()], comparators=[node.args[1]])
+                if not (isinstance(f.value, ast.Name) and f.value.id in ("torch", "operator", "np", "math")) and len(node.args) == 1:
+                    return ast.Compare(left=f.value, ops=[cmpf[f.attr]()], comparators=[node.args[0]])
             if f.attr in ("neg", "negative") and not node.keywords:
                 if isinstance(f.value, ast.Name) and f.value.id == "torch" and len(node.args) == 1 and not isinstance(node.args[0], ast.Starred):
                     return ast.UnaryOp(op=ast.USub(), operand=node.args[0])
                 if not (isinstance(f.value, ast.Name) and f.value.id in ("torch", "operator", "np", "math")) and not node.args:
                     return ast.UnaryOp(op=ast.USub(), operand=f.value)
+            if f.attr == "matmul" and len(node.args) == 1 and not node.keywords and not (isinstance(f.value, ast.Name) and f.value.id in ("torch", "np")):
+                return ast.BinOp(left=f.value, op=ast.MatMult(), right=node.args[0])
+            if f.attr == "to" and not node.args and len(node.keywords) == 1 and node.keywords[0].arg == "dtype":
+                return ast.Call(func=f, args=[node.keywords[0].value], keywords=[])  # x.to(dtype=d) -> x.to(d)
             if f.attr in ("concat", "concatenate") and isinstance(f.value, ast.Name) and f.value.id == "torch":
                 f.attr = "cat"
             if f.attr == "type" and len(node.args) == 1 and not node.keywords and not (isinstance(f.value, ast.Name) and f.value.id == "torch"):
@@ -376,6 +386,13 @@ class _Canon(ast.NodeTransformer):
                 names = ["min", "max"]
                 kws = [ast.keyword(arg=names[i], value=a) for i, a in enumerate(node.args[:2])]
                 node = ast.Call(func=f, args=[], keywords=kws + node.keywords)
+            if f.attr == "numel" and not node.args and not node.keywords and isinstance(f.value, ast.Attribute) and f.value.attr == "shape":
+                return ast.Call(func=ast.Attribute(value=f.value.value, attr="numel", ctx=ast.Load()), args=[], keywords=[])  # x.shape.numel() -> x.numel()
+            if f.attr == "prod" and isinstance(f.value, ast.Name) and f.value.id == "math" and len(node.args) == 1 and isinstance(node.args[0], ast.Attribute) and node.args[0].attr == "shape":
+                return ast.Call(func=ast.Attribute(value=node.args[0].value, attr="numel", ctx=ast.Load()), args=[], keywords=[])
+            if f.attr == "transpose" and len(node.args) == 2 and not node.keywords and all(isinstance(a, ast.Constant) for a in node.args) and sorted(a.value for a in node.args) == [0, 1] \
+                    and not (isinstance(f.value, ast.Name) and f.value.id == "torch"):
+                return ast.Call(func=ast.Attribute(value=f.value, attr="t", ctx=ast.Load()), args=[], keywords=[])  # 2-D transpose
             if f.attr == "size":
                 if not node.args and not node.keywords:
                     return ast.Attribute(value=f.value, attr="shape", ctx=ast.Load())
@@ -396,6 +413,8 @@ class _Canon(ast.NodeTransformer):
                 return node.args[0]  # int() of a size / bit width / count is the identity
             if f.id == "int" and len(node.args) == 1 and not node.keywords and isinstance(node.args[0], ast.Call) and isinstance(node.args[0].func, ast.Attribute) and node.args[0].func.attr in ("numel", "size", "dim", "item"):
                 return node.args[0]
+            if f.id in ("tuple", "list") and len(node.args) == 1 and not node.keywords and isinstance(node.args[0], ast.Call) and isinstance(node.args[0].func, ast.Name) and node.args[0].func.id == "reversed" and len(node.args[0].args) == 1:
+                return ast.Subscript(value=node.args[0].args[0], slice=ast.Slice(lower=None, upper=None, step=ast.UnaryOp(op=ast.USub(), operand=ast.Constant(value=1))), ctx=ast.Load())
             if f.id in ("tuple", "list") and len(node.args) == 1 and not node.keywords and isinstance(node.args[0], ast.Attribute) and node.args[0].attr == "shape":
                 return node.args[0]  # tuple(x.shape) / tuple(x.size()): the shape itself
             if f.id == "len" and len(node.args) == 1 and isinstance(node.args[0], ast.Attribute) and node.args[0].attr == "shape":
@@ -422,6 +441,31 @@ class _Canon(ast.NodeTransformer):
                         return ast.Call(func=f, args=args, keywords=[])
         return node
 
+    def visit_Lambda(self, node):
+        self.generic_visit(node)
+        a = node.args
+        if a.vararg or a.kwarg or a.kwonlyargs or a.defaults or a.posonlyargs:
+            return node
+        old = [x.arg for x in a.args]
+        new = (["x", "y", "z"] + [f"a{i}" for i in range(3, len(old))])[: len(old)]
+        if old == new:
+            return node
+        free = {n.id for n in ast.walk(node.body) if isinstance(n, ast.Name)} - set(old)
+        if free & set(new):
+            return node
+        ren = dict(zip(old, new))
+
+        class R(ast.NodeTransformer):
+            def visit_Name(self, n):
+                return ast.copy_location(ast.Name(id=ren[n.id], ctx=n.ctx), n) if n.id in ren else n
+
+            def visit_Lambda(self, n):
+                return n  # inner lambdas keep their own binders
+
+        node.body = R().visit(node.body)
+        node.args = ast.arguments(posonlyargs=[], args=[ast.arg(arg=x) for x in new], vararg=None, kwonlyargs=[], kw_defaults=[], kwarg=None, defaults=[])
+        return node
+
     def visit_Attribute(self, node):
         self.generic_visit(node)
         # <qtype>.dtype.is_floating_point -> <qtype>.is_floating_point (the qtype table keeps the two equal: C01.R3 checks it)
@@ -435,6 +479,20 @@ class _Canon(ast.NodeTransformer):
     def visit_Subscript(self, node):
         self.generic_visit(node)
         v = node.value
+        # dotted-name surgery: s.rpartition(sep)[0] / s.rsplit(sep, 1)[0] -> s[:s.rindex(sep)];  [2] / [-1] / [1] -> s.split(sep)[-1]
+        # (equal whenever sep occurs in s, which is what the guards of the callers establish)
+        if isinstance(v, ast.Call) and isinstance(v.func, ast.Attribute) and isinstance(node.slice, (ast.Constant, ast.UnaryOp)) and not v.keywords:
+            idx = node.slice.value if isinstance(node.slice, ast.Constant) else (-node.slice.operand.value if isinstance(node.slice.op, ast.USub) and isinstance(node.slice.operand, ast.Constant) else None)
+            s_, meth = v.func.value, v.func.attr
+            head = tail = False
+            if meth == "rpartition" and len(v.args) == 1:
+                head, tail = idx == 0, idx in (2, -1)
+            elif meth == "rsplit" and len(v.args) == 2 and isinstance(v.args[1], ast.Constant) and v.args[1].value == 1:
+                head, tail = idx == 0, idx in (1, -1)
+            if head:
+                return ast.Subscript(value=s_, slice=ast.Slice(lower=None, upper=ast.Call(func=ast.Attribute(value=copy.deepcopy(s_), attr="rindex", ctx=ast.Load()), args=[v.args[0]], keywords=[]), step=None), ctx=node.ctx)
+            if tail:
+                return ast.Subscript(value=ast.Call(func=ast.Attribute(value=s_, attr="split", ctx=ast.Load()), args=[v.args[0]], keywords=[]), slice=ast.UnaryOp(op=ast.USub(), operand=ast.Constant(value=1)), ctx=node.ctx)
         if isinstance(v, ast.Call) and isinstance(v.func, ast.Name) and v.func.id in ("tuple", "list") and len(v.args) == 1 and not v.keywords:
             return ast.Subscript(value=v.args[0], slice=node.slice, ctx=node.ctx)
         return node
@@ -447,6 +505,10 @@ class _Canon(ast.NodeTransformer):
 
     def visit_UnaryOp(self, node):
         self.generic_visit(node)
+        if isinstance(node.op, ast.Not) and isinstance(node.operand, ast.Constant) and isinstance(node.operand.value, bool):
+            return ast.Constant(value=not node.operand.value)
+        if isinstance(node.op, ast.Not) and isinstance(node.operand, ast.UnaryOp) and isinstance(node.operand.op, ast.Not) and isinstance(node.operand.operand, (ast.Compare, ast.BoolOp)):
+            return node.operand.operand  # not not (a == b)
         if isinstance(node.op, ast.Not) and isinstance(node.operand, ast.Compare) and len(node.operand.ops) == 1:
             flip = {ast.Eq: ast.NotEq, ast.NotEq: ast.Eq, ast.Is: ast.IsNot, ast.IsNot: ast.Is, ast.In: ast.NotIn, ast.NotIn: ast.In,
                     ast.Lt: ast.GtE, ast.GtE: ast.Lt, ast.Gt: ast.LtE, ast.LtE: ast.Gt}
@@ -464,6 +526,14 @@ class _Canon(ast.NodeTransformer):
                 vals.extend(v.values)
             else:
                 vals.append(v)
+        # neutral / absorbing literals
+        isand = isinstance(node.op, ast.And)
+        if any(isinstance(v, ast.Constant) and isinstance(v.value, bool) for v in vals):
+            if any(isinstance(v, ast.Constant) and v.value is (not isand) for v in vals):
+                return ast.Constant(value=not isand)
+            vals = [v for v in vals if not (isinstance(v, ast.Constant) and v.value is isand)] or [ast.Constant(value=isand)]
+            if len(vals) == 1:
+                return vals[0]
         # x == a or x == b -> x in (a, b);  x != a and x != b -> x not in (a, b)
         want = ast.Eq if isinstance(node.op, ast.Or) else ast.NotEq
         groups: Dict[str, list] = {}
@@ -929,7 +999,25 @@ class InlineCtx:
         local = set(params_of(fn)) | set(p.env) | set(p.closures)
 
         class C(ast.NodeTransformer):
+            def visit_Call(self, node):
+                # the callee position is left alone (calls are inlined elsewhere); arguments may be function values
+                if not isinstance(node.func, ast.Name):
+                    node.func = self.visit(node.func)
+                node.args = [self.visit(a) for a in node.args]
+                for k in node.keywords:
+                    k.value = self.visit(k.value)
+                return node
+
             def visit_Name(self, node):
+                if isinstance(node.ctx, ast.Load) and node.id not in local and node.id.startswith("_") and not node.id.startswith("__") and node.id not in VOCABULARY:
+                    # a private one-expression function passed as a value: the equivalent lambda
+                    r = repo_.resolve(mi, node.id)
+                    h = r[1] if r is not None else None
+                    if isinstance(h, ast.FunctionDef) and not h.decorator_list and not h.args.vararg and not h.args.kwarg and not h.args.defaults and not h.args.kwonlyargs:
+                        body = [b for b in h.body if not (isinstance(b, ast.Expr) and isinstance(b.value, ast.Constant))]
+                        if len(body) == 1 and isinstance(body[0], ast.Return) and body[0].value is not None:
+                            lam = ast.Lambda(args=ast.arguments(posonlyargs=[], args=[ast.arg(arg=a.arg) for a in h.args.args], vararg=None, kwonlyargs=[], kw_defaults=[], kwarg=None, defaults=[]), body=copy.deepcopy(body[0].value))
+                            return ast.copy_location(lam, node)
                 if isinstance(node.ctx, ast.Load) and node.id not in local and node.id.isupper() or (isinstance(node.ctx, ast.Load) and node.id not in local and node.id.startswith("_") and node.id[1:2].isupper()):
                     v = mi.defs.get(node.id)
                     if v is None and node.id in mi.imports:  # a constant imported from another module of the package
@@ -1111,6 +1199,10 @@ class PathEnum:
             out = []
             for c, q in self.sx(st.test, p, st):
                 c = canon_ast(c)
+                if isinstance(c, ast.Constant) and isinstance(c.value, (bool, type(None))):
+                    # a helper that returned a literal on this path decides the branch
+                    out.extend(self.block(st.body if c.value else st.orelse, [q]))
+                    continue
                 pt, pf = q, q.clone()
                 pt.conds.append((c, True, st.lineno))
                 pf.conds.append((copy.deepcopy(c), False, st.lineno))
@@ -1230,7 +1322,7 @@ class PathEnum:
         rules' vocabulary.  A helper with several paths forks the caller's path; a raising helper path ends it."""
         if expr is None:
             return [(None, p)]
-        e = subst(expr, p.env)
+        e = canon_ast(subst(expr, p.env))  # every value the rules see is canonically spelled
         if self.ctx is None or self.depth <= 0:
             return [(e, p)]
         e = self.ctx.resolve_constants(e, self.fn, p)
@@ -1444,6 +1536,33 @@ def canon_function(fn: ast.FunctionDef) -> ast.FunctionDef:
 
 _KEEPALIVE: list = []
 _CANON_FN: Dict[int, ast.FunctionDef] = {}
+_PRED_FN: Dict[int, ast.FunctionDef] = {}
+
+
+def canon_function_inlined(fn: ast.FunctionDef, helpers: Optional[dict] = None) -> ast.FunctionDef:
+    """canon_function of `fn` with its pure predicate helpers (module-level or given) inlined as expressions (cached)."""
+    if id(fn) in _PRED_FN:
+        return _PRED_FN[id(fn)]
+    helpers = helpers or {}
+
+    def lookup(name):
+        h = helpers.get(name)
+        if isinstance(h, ast.FunctionDef):
+            return h
+        h = module_lookup(fn, name)
+        return h if isinstance(h, ast.FunctionDef) else None
+
+    inl = inline_predicates(fn, lookup)
+    if id(fn) in _MODULE_OF:
+        _MODULE_OF[id(inl)] = _MODULE_OF[id(fn)]
+    if id(fn) in _CLASS_OF:
+        _CLASS_OF[id(inl)] = _CLASS_OF[id(fn)]
+    _KEEPALIVE.append(inl)
+    c = canon_function(inl)
+    _PRED_FN[id(fn)] = c
+    _PRED_FN[id(c)] = c
+    _KEEPALIVE.append(fn)
+    return c
 
 
 def module_lookup(fn: ast.FunctionDef, name: str):
@@ -1487,6 +1606,129 @@ def loop_body_paths(outer: ast.FunctionDef, loop: ast.For, pre_env: Optional[dic
         q.end = ("fall", None, getattr(loop, "end_lineno", loop.lineno))
         pe.out.append(q)
     return [q for q in pe.out if path_feasible(q)]
+
+
+def predicate_expr(fn: ast.FunctionDef) -> Optional[ast.AST]:
+    """A side-effect-free helper made of local assignments, `if c: return a` guards and a final return, as ONE expression of its
+    parameters (early `return False/True` become conjunctions / disjunctions).  None when the function has any other statement."""
+
+    def simp(c, t, e):
+        def const(x, v):
+            return isinstance(x, ast.Constant) and x.value is v
+        if const(t, False):
+            return ast.BoolOp(op=ast.And(), values=[ast.UnaryOp(op=ast.Not(), operand=c), e])
+        if const(t, True):
+            return ast.BoolOp(op=ast.Or(), values=[c, e])
+        if const(e, False):
+            return ast.BoolOp(op=ast.And(), values=[c, t])
+        if const(e, True):
+            return ast.BoolOp(op=ast.Or(), values=[ast.UnaryOp(op=ast.Not(), operand=c), t])
+        return ast.IfExp(test=c, body=t, orelse=e)
+
+    def conv(stmts, env, depth):
+        if depth > 12:
+            return None
+        if not stmts:
+            return ast.Constant(value=None)
+        st, rest = stmts[0], list(stmts[1:])
+        if isinstance(st, ast.Expr) and isinstance(st.value, ast.Constant):
+            return conv(rest, env, depth)
+        if isinstance(st, ast.Pass):
+            return conv(rest, env, depth)
+        if isinstance(st, ast.Return):
+            return subst(st.value, env) if st.value is not None else ast.Constant(value=None)
+        if isinstance(st, ast.Assign) and len(st.targets) == 1:
+            t = st.targets[0]
+            v = subst(st.value, env)
+            if isinstance(t, ast.Name):
+                return conv(rest, {**env, t.id: v}, depth)
+            if isinstance(t, ast.Tuple) and all(isinstance(x, ast.Name) for x in t.elts):
+                e2 = dict(env)
+                if isinstance(v, (ast.Tuple, ast.List)) and len(v.elts) == len(t.elts):
+                    for x, y in zip(t.elts, v.elts):
+                        e2[x.id] = y
+                else:
+                    for i, x in enumerate(t.elts):
+                        e2[x.id] = ast.Subscript(value=copy.deepcopy(v), slice=ast.Constant(value=i), ctx=ast.Load())
+                return conv(rest, e2, depth)
+            return None
+        if isinstance(st, ast.If):
+            c = subst(st.test, env)
+            t = conv(list(st.body) + rest, env, depth + 1)
+            e = conv(list(st.orelse) + rest, env, depth + 1)
+            if t is None or e is None:
+                return None
+            return simp(c, t, e)
+        return None
+
+    try:
+        r = conv(list(fn.body), {}, 0)
+    except RecursionError:
+        return None
+    return canon_ast(r) if r is not None else None
+
+
+def inline_predicates(fn: ast.FunctionDef, lookup, depth: int = 2) -> ast.FunctionDef:
+    """A copy of `fn` in which calls to pure predicate helpers (see predicate_expr) are replaced by their expression.
+    `lookup(name)` returns the helper's FunctionDef or None."""
+
+    class T(ast.NodeTransformer):
+        def __init__(self, d):
+            self.d = d
+
+        def visit_FunctionDef(self, node):
+            if node is not root:
+                return node  # nested defs keep their own calls
+            self.generic_visit(node)
+            return node
+
+        def visit_Call(self, node):
+            self.generic_visit(node)
+            if self.d <= 0 or not isinstance(node.func, ast.Name) or node.func.id in VOCABULARY:
+                return node
+            h = lookup(node.func.id)
+            if not isinstance(h, ast.FunctionDef) or h is fn:
+                return node
+            env = bind_call(h, node)
+            if env is None:
+                return node
+            pe = predicate_expr(h)
+            if pe is None:
+                return node
+            pe = T(self.d - 1).visit(subst(pe, env))
+            return ast.copy_location(pe, node)
+
+    root = copy.deepcopy(fn)
+    out = T(depth).visit(root)
+    return ast.fix_missing_locations(out)
+
+
+def path_calls(fn: ast.FunctionDef, name: str) -> List[ast.Call]:
+    """Calls to the package function `name` met on any path of `fn`, with private helpers inlined and locals substituted
+    (so a call moved into a helper, or spelled with other argument conventions, is still found once per distinct spelling)."""
+    seen, out = set(), []
+
+    def visit(x):
+        if isinstance(x, ast.AST):
+            for n in ast.walk(x):
+                if isinstance(n, ast.Call) and U(n.func) == name:
+                    k = U(n)
+                    if k not in seen:
+                        seen.add(k)
+                        out.append(n)
+        elif isinstance(x, (list, tuple)):
+            for y in x:
+                visit(y)
+
+    for p in paths_of(fn):
+        for c, _, _ in p.conds:
+            visit(c)
+        for ef in p.effects:
+            visit(list(ef))
+        if p.end:
+            visit(p.end[1])
+        visit(list(p.env.values()))
+    return out
 
 
 def returns(paths: Iterable[Path]) -> List[Path]:
